@@ -13,6 +13,9 @@ type Lexer struct {
 	column int
 	start  int
 	tokens []Token
+
+	// startColumn is the column at which the token being scanned started.
+	startColumn int
 }
 
 // NewLexer creates a new lexer for the given source.
@@ -37,6 +40,7 @@ func NewLexer(source string) *Lexer {
 func (l *Lexer) Tokenize() ([]Token, error) {
 	for !l.isAtEnd() {
 		l.start = l.pos
+		l.startColumn = l.column
 		if err := l.scanToken(); err != nil {
 			return nil, err
 		}
@@ -419,7 +423,7 @@ func (l *Lexer) addToken(kind TokenKind) {
 		Kind:   kind,
 		Lexeme: l.source[l.start:l.pos],
 		Line:   l.line,
-		Column: l.column - (l.pos - l.start),
+		Column: l.startColumn,
 	})
 }
 
